@@ -120,7 +120,7 @@ fn layer_a(cli: &Cli, rep: &mut Report) {
 
 fn layer_b(cli: &Cli, rep: &mut Report) {
     let ctl = if cli.small { None } else { Some(vh::sched::Controller::install()) };
-    let n = cli.cases(480, 8_000);
+    let n = cli.cases(1440, 8_000);
     for k in cli.index_range(n) {
         if k >> 48 != 0 {
             continue;
